@@ -10,3 +10,4 @@ import SuxModel.Props.C13
 #print axioms Sux.Atomic.no_thread_faults
 #print axioms Sux.Atomic.cas_failures_bounded
 #print axioms Sux.Atomic.cas_failures_bounded_sc
+#print axioms Sux.Atomic.fair_schedule_terminates
